@@ -83,6 +83,48 @@ def rename_locals(tree, suffix):
     return count
 
 
+def rename_comprehension_variables(tree, suffix="_c"):
+    """every variable bound by a comprehension / generator expression gets a new name inside that comprehension (its scope: everything but the
+    first iterable, which belongs to the enclosing scope); comprehensions containing a lambda or a walrus are left"""
+    count = [0]
+
+    class Ren(ast.NodeTransformer):
+        def __init__(self, names):
+            self.names = names
+
+        def visit_Name(self, n):
+            if n.id in self.names:
+                count[0] += 1
+                return ast.copy_location(ast.Name(id=n.id + suffix, ctx=n.ctx), n)
+            return n
+
+    class T(ast.NodeTransformer):
+        def _comp(self, n):
+            self.generic_visit(n)            # inner comprehensions first
+            if any(isinstance(y, (ast.Lambda, ast.NamedExpr)) for y in ast.walk(n)):
+                return n
+            names = {x.id for g in n.generators for x in ast.walk(g.target) if isinstance(x, ast.Name) and x.id != "_" and not x.id.endswith(suffix)}
+            if not names:
+                return n
+            r = Ren(names)
+            first_iter = n.generators[0].iter
+            for fld in ("elt", "key", "value"):
+                if hasattr(n, fld):
+                    setattr(n, fld, r.visit(getattr(n, fld)))
+            for i, g in enumerate(n.generators):
+                g.target = r.visit(g.target)
+                g.ifs = [r.visit(c) for c in g.ifs]
+                if i > 0:
+                    g.iter = r.visit(g.iter)
+            n.generators[0].iter = first_iter
+            return n
+        visit_ListComp = visit_SetComp = visit_DictComp = visit_GeneratorExp = _comp
+    for fn in [x for x in ast.walk(tree) if isinstance(x, (ast.FunctionDef, ast.AsyncFunctionDef))]:
+        T().visit(fn)
+    ast.fix_missing_locations(tree)
+    return count[0]
+
+
 def hoist_returns(tree):
     count = 0
 
@@ -509,6 +551,97 @@ def name_tests(tree):
     return count[0]
 
 
+def swap_products(tree):
+    """a * b -> b * a ;  a & b -> b & a      (operands free of calls: nothing to observe in the evaluation order; `*` and `&` are commutative
+    for numbers, numpy arrays, sets and sequence repetition)"""
+    count = [0]
+
+    def plain(e):
+        return not any(isinstance(x, (ast.Call, ast.Await, ast.Yield, ast.YieldFrom, ast.NamedExpr, ast.Lambda, ast.IfExp, ast.ListComp, ast.GeneratorExp, ast.DictComp, ast.SetComp,
+                                      ast.JoinedStr)) for x in ast.walk(e))
+
+    class T(ast.NodeTransformer):
+        def visit_BinOp(self, n):
+            self.generic_visit(n)
+            if isinstance(n.op, (ast.Mult, ast.BitAnd)) and plain(n.left) and plain(n.right) and ast.unparse(n.left) != ast.unparse(n.right):
+                n.left, n.right = n.right, n.left
+                count[0] += 1
+            return n
+    for fn in [x for x in ast.walk(tree) if isinstance(x, (ast.FunctionDef, ast.AsyncFunctionDef))]:
+        T().visit(fn)
+    ast.fix_missing_locations(tree)
+    return count[0]
+
+
+def loops_for_comprehensions(tree):
+    """x = [E for v in IT if C]   (statement level, one generator, plain name target, x not read inside the comprehension)
+         ->   x = [] ; for v__l in IT: if C: x.append(E)          (the loop variable gets a fresh name: a comprehension's does not leak)
+       likewise  x = {K: V for v in IT if C}  ->  x = {} ; for ..: x[K] = V"""
+    count = [0]
+
+    class Ren(ast.NodeTransformer):
+        def __init__(self, m):
+            self.m = m
+
+        def visit_Name(self, n):
+            if n.id in self.m:
+                return ast.copy_location(ast.Name(id=self.m[n.id], ctx=n.ctx), n)
+            return n
+
+    class T(ast.NodeTransformer):
+        def _block(self, stmts):
+            out = []
+            for st in stmts:
+                v = st.value if isinstance(st, ast.Assign) and len(st.targets) == 1 and isinstance(st.targets[0], ast.Name) else None
+                if isinstance(v, (ast.ListComp, ast.DictComp)) and len(v.generators) == 1 and not v.generators[0].is_async \
+                        and not any(isinstance(y, ast.Name) and y.id == st.targets[0].id for y in ast.walk(v)) \
+                        and not any(isinstance(y, (ast.Lambda, ast.ListComp, ast.SetComp, ast.DictComp, ast.GeneratorExp, ast.NamedExpr, ast.Await, ast.Yield, ast.YieldFrom))
+                                    for part in ([v.elt] if isinstance(v, ast.ListComp) else [v.key, v.value]) + v.generators[0].ifs for y in ast.walk(part)):
+                    g = v.generators[0]
+                    count[0] += 1
+                    tn = {y.id: f"{y.id}__l{count[0]}" for y in ast.walk(g.target) if isinstance(y, ast.Name)}
+                    x = st.targets[0].id
+                    ren = Ren(tn)
+                    tgt = ren.visit(g.target)
+                    for y in ast.walk(tgt):
+                        if isinstance(y, (ast.Name, ast.Tuple, ast.List, ast.Starred)):
+                            y.ctx = ast.Store()
+                    if isinstance(v, ast.ListComp):
+                        init = ast.List(elts=[], ctx=ast.Load())
+                        inner = ast.Expr(value=ast.Call(func=ast.Attribute(value=ast.Name(id=x, ctx=ast.Load()), attr="append", ctx=ast.Load()), args=[ren.visit(v.elt)], keywords=[]))
+                    else:
+                        init = ast.Dict(keys=[], values=[])
+                        # key is evaluated before the value in a dict comprehension; in `x[K] = V` the value comes first: keep the order with names
+                        inner = ast.Assign(targets=[ast.Subscript(value=ast.Name(id=x, ctx=ast.Load()), slice=ren.visit(v.key), ctx=ast.Store())], value=ren.visit(v.value), lineno=st.lineno)
+                        if any(isinstance(y, ast.Call) for y in ast.walk(v.key)) and any(isinstance(y, ast.Call) for y in ast.walk(v.value)):
+                            out.append(st)
+                            count[0] -= 1
+                            continue
+                    body = [inner]
+                    for c in reversed(g.ifs):
+                        body = [ast.If(test=ren.visit(c), body=body, orelse=[])]
+                    out.append(ast.copy_location(ast.Assign(targets=[ast.Name(id=x, ctx=ast.Store())], value=init, lineno=st.lineno), st))
+                    out.append(ast.copy_location(ast.For(target=tgt, iter=g.iter, body=body, orelse=[], lineno=st.lineno), st))
+                else:
+                    out.append(st)
+            return out
+
+        def generic_visit(self, node):
+            node = super().generic_visit(node)
+            for fld in ("body", "orelse", "finalbody"):
+                v = getattr(node, fld, None)
+                if isinstance(v, list) and v and isinstance(v[0], ast.stmt) and not isinstance(node, (ast.ClassDef, ast.Module)):
+                    setattr(node, fld, self._block(v))
+            if isinstance(node, ast.Try):
+                for h in node.handlers:
+                    h.body = self._block(h.body)
+            return node
+    for fn in [x for x in ast.walk(tree) if isinstance(x, (ast.FunctionDef, ast.AsyncFunctionDef))]:
+        T().visit(fn)
+    ast.fix_missing_locations(tree)
+    return count[0]
+
+
 def transformed_copy(mode, suffix="_q"):
     """a scratch copy of the analysed tree (VERIF_REPO_ROOT or /repo) with one transformation applied everywhere; (path, number of rewrites)"""
     src_root = os.environ.get("VERIF_REPO_ROOT", "/repo")
@@ -522,7 +655,7 @@ def transformed_copy(mode, suffix="_q"):
     sig = _signatures([ast.parse(open(p_).read()) for p_ in files if os.path.exists(p_)]) if mode == "keyword-arguments" else {}
     if mode.startswith("combined"):
         # several rewrites on top of one another (each still preserves behaviour): the checks must not depend on a spelling surviving the others
-        order = {"combined": ["name-arguments", "name-tests", "swap-arms", "else-after-exit", "flip-comparisons", "keyword-arguments", "generators-for-lists", "hoist-returns", "rename-locals"],
+        order = {"combined": ["loops-for-comprehensions", "rename-comprehension-variables", "swap-products", "name-arguments", "name-tests", "swap-arms", "else-after-exit", "flip-comparisons", "keyword-arguments", "generators-for-lists", "hoist-returns", "rename-locals"],
                  "combined-2": ["inline-temps", "unelse", "swap-arms", "flip-comparisons", "hoist-returns", "name-tests", "rename-locals"]}[mode]
         shutil.rmtree(scratch, ignore_errors=True)
         prev_root = os.environ.get("VERIF_REPO_ROOT")
@@ -552,7 +685,7 @@ def transformed_copy(mode, suffix="_q"):
                 total += k
             continue
         k = {"hoist-returns": hoist_returns, "name-arguments": name_arguments, "unelse": unelse, "else-after-exit": else_after_exit,
-             "flip-comparisons": flip_comparisons, "inline-temps": inline_temps, "swap-arms": swap_arms, "generators-for-lists": generators_for_lists,
+             "flip-comparisons": flip_comparisons, "inline-temps": inline_temps, "swap-arms": swap_arms, "generators-for-lists": generators_for_lists, "swap-products": swap_products, "rename-comprehension-variables": rename_comprehension_variables, "loops-for-comprehensions": loops_for_comprehensions,
              "name-tests": name_tests}.get(mode, lambda t: rename_locals(t, suffix))(tree)
         if k:
             open(path, "w").write(ast.unparse(tree) + "\n")
@@ -569,7 +702,7 @@ def main():
     if "--only" in sys.argv:
         only = sys.argv[sys.argv.index("--only") + 1].split(",")
     mode = "rename-locals"
-    for m_ in ("hoist-returns", "name-arguments", "unelse", "else-after-exit", "flip-comparisons", "keyword-arguments", "inline-temps", "swap-arms", "generators-for-lists", "name-tests", "combined-2", "combined"):
+    for m_ in ("hoist-returns", "name-arguments", "unelse", "else-after-exit", "flip-comparisons", "keyword-arguments", "inline-temps", "swap-arms", "generators-for-lists", "name-tests", "swap-products", "loops-for-comprehensions", "rename-comprehension-variables", "combined-2", "combined"):
         if "--" + m_ in sys.argv:
             mode = m_
     out = tempfile.mkdtemp(prefix="batchie-verif-alpha-out-", dir="/var/tmp")
